@@ -534,6 +534,12 @@ PREFIXES = {
     "label_jump": "@known; p1(); if ($P == 1) { jump @known; }",
     "macro_call": "~fine(1);",
     "macro_with_loop": "~loops();",
+    # statements that end control flow: what follows them is unreachable, not unchecked
+    "end": "p1(); end;",
+    "return": "p1(); return;",
+    "hold": "hold;",
+    "jump_back": "@again; p1(); jump @again;",
+    "switch_fall_then_op": "switch ($P) { case 1: case 2: p1(); break; default: p2(); } p3();",
 }
 PREFIX_MACROS = "macro fine($a) {\n    f($a);\n}\nmacro loops() {\n    while not ($M == 1) {\n        l();\n    }\n    forever {\n        break_loop;\n    }\n    switch ($M) {\n        case 1:\n            l();\n            break;\n    }\n}\n"
 
@@ -555,6 +561,12 @@ PREFIXES = {
     "label_jump": "@known; p1(); if ($P == 1) { jump @known; }",
     "macro_call": "~fine(1);",
     "macro_with_loop": "~loops();",
+    # statements that end control flow: what follows them is unreachable, not unchecked
+    "end": "p1(); end;",
+    "return": "p1(); return;",
+    "hold": "hold;",
+    "jump_back": "@again; p1(); jump @again;",
+    "switch_fall_then_op": "switch ($P) { case 1: case 2: p1(); break; default: p2(); } p3();",
 }
 PREFIX_MACROS = "macro fine($a) {\n    f($a);\n}\nmacro loops() {\n    while not ($M == 1) {\n        l();\n    }\n    forever {\n        break_loop;\n    }\n    switch ($M) {\n        case 1:\n            l();\n            break;\n    }\n}\n"
 
